@@ -1127,11 +1127,68 @@ func (g *IG) factsNoExpand(target int) []Fact {
 		if !base[f.Edge.From] {
 			continue
 		}
-		if r := g.Reach([]int{0}, map[Edge]bool{f.Edge: true}, nil); !r[target] {
+		if r := g.Reach([]int{0}, map[Edge]bool{f.Edge: true}, nil); !r[target] && !g.stale(f, target) {
 			out = append(out, f)
 		}
 	}
 	return out
+}
+
+// stale: the fact is about a merged value (a phi) that is merged again on some
+// way from the test to target that does not pass the test once more: what was
+// tested is then an earlier value of the variable. (Without threaded copies of
+// tests this cannot happen for a test that every path to target crosses.)
+func (g *IG) stale(f Fact, target int) bool {
+	return g.staleVia(f, []Edge{f.Edge}, target)
+}
+
+// staleVia: the same for a fact that holds on each of the given edges.
+func (g *IG) staleVia(f Fact, edges []Edge, target int) bool {
+	var phis []*ssa.Phi
+	for _, v := range []ssa.Value{f.X, f.Y} {
+		if v == nil {
+			continue
+		}
+		if p, ok := stripConv(v).(*ssa.Phi); ok {
+			phis = append(phis, p)
+		}
+	}
+	if len(phis) == 0 || len(g.Via) == 0 {
+		return false
+	}
+	cut := map[Edge]bool{}
+	var starts []int
+	for _, e := range edges {
+		if e.K >= len(g.Succ[e.From]) {
+			continue
+		}
+		cut[e] = true
+		starts = append(starts, g.Succ[e.From][e.K])
+	}
+	if len(starts) == 0 {
+		return false
+	}
+	r1 := g.Reach(starts, cut, nil)
+	for _, p := range phis {
+		b := p.Block()
+		for n, ss := range g.Succ {
+			if !r1[n] || g.Ins[n] == nil || g.Ins[n].Block() == b || g.Ins[n].Block() == nil {
+				continue
+			}
+			for k, sn := range ss {
+				if sn < 0 || g.Ins[sn] == nil || g.Ins[sn].Block() != b {
+					continue
+				}
+				if cut[Edge{n, k}] {
+					continue
+				}
+				if sn == target || g.Reach([]int{sn}, cut, nil)[target] {
+					return true
+				}
+			}
+		}
+	}
+	return false
 }
 
 func (g *IG) AllEdgeFacts() []Fact {
@@ -1192,7 +1249,7 @@ func (g *IG) FactsAt(target int) []Fact {
 			continue
 		}
 		r := g.Reach([]int{0}, map[Edge]bool{f.Edge: true}, nil)
-		if !r[target] {
+		if !r[target] && !g.stale(f, target) {
 			out = append(out, f)
 		}
 	}
@@ -1212,7 +1269,13 @@ func (g *IG) FactsAt(target int) []Fact {
 			if r := g.Reach([]int{0}, cut, nil); !r[target] {
 				if f, ok := condFact(g.Ins[orig].(*ssa.If).Cond, k == 0); ok {
 					f.Edge = Edge{orig, k}
-					out = append(out, f)
+					var es []Edge
+					for e := range cut {
+						es = append(es, e)
+					}
+					if !g.staleVia(f, es, target) {
+						out = append(out, f)
+					}
 				}
 			}
 		}
@@ -1691,20 +1754,20 @@ func (g *IG) flattenCase(c RetCase, blk *ssa.BasicBlock, depth int) []RetCase {
 			}
 		}
 		if carried && !fresh {
+			if os.Getenv("FFC_DEBUG_CASES") != "" {
+				fmt.Fprintf(os.Stderr, "  SKIP carried blk=%d pred=%d\n", blk.Index, blk.Preds[i].Index)
+			}
 			continue
 		}
 		// what later tests said about the merged values must be possible for the
 		// operands of this edge
 		for _, r := range c.Req {
-			for j, v := range c.Vals {
-				_ = j
-				if phi, ok := v.(*ssa.Phi); ok && phi.Block() == blk {
-					if r.X == v {
-						r.X = phi.Edges[i]
-					}
-					if r.Y != nil && r.Y == v {
-						r.Y = phi.Edges[i]
-					}
+			if phi, ok := r.X.(*ssa.Phi); ok && phi.Block() == blk {
+				r.X = phi.Edges[i]
+			}
+			if r.Y != nil {
+				if phi, ok := r.Y.(*ssa.Phi); ok && phi.Block() == blk {
+					r.Y = phi.Edges[i]
 				}
 			}
 			nc.Req = append(nc.Req, r)
@@ -1713,6 +1776,12 @@ func (g *IG) flattenCase(c RetCase, blk *ssa.BasicBlock, depth int) []RetCase {
 			nc.Req = append(nc.Req, f)
 		}
 		if g.infeasible(nc) {
+			if os.Getenv("FFC_DEBUG_CASES") != "" {
+				fmt.Fprintf(os.Stderr, "  DROP infeasible blk=%d pred=%d vals=%v req=%d\n", blk.Index, blk.Preds[i].Index, nc.Vals, len(nc.Req))
+				for _, r := range nc.Req {
+					fmt.Fprintf(os.Stderr, "       req %v %v %v\n", r.X, r.Op, r.Y)
+				}
+			}
 			continue
 		}
 		out = append(out, g.flattenCase(nc, blk.Preds[i], depth+1)...)
@@ -1760,6 +1829,9 @@ func (g *IG) infeasible(c RetCase) bool {
 			loaded = true
 		}
 		for _, k := range known {
+			if os.Getenv("FFC_DEBUG_CASES") != "" && k.X == r.X {
+				fmt.Fprintf(os.Stderr, "       known %v %v %v edge %v (at %d)\n", k.X, k.Op, k.Y, k.Edge, c.At)
+			}
 			if k.X != r.X || k.Op != negate(r.Op) {
 				continue
 			}
